@@ -172,6 +172,8 @@ pub struct Src {
     pub stream_none: u32,
     // lifecycle
     pub synth_armed: bool,
+    /// the cause this source is waiting to be served for was made by an operation issued from inside a callback
+    pub cause_from_cb: bool,
     /// a sub-source left the composite without a re-registration: the remaining ones keep their (now sparse) sub-ids
     pub sparse_sub_ids: bool,
     /// a synthetic event this source announced in a dispatch that then failed: the loop still owes it
@@ -242,6 +244,7 @@ impl Src {
             stream: None,
             stream_none: 0,
             synth_armed: false,
+            cause_from_cb: false,
             sparse_sub_ids: false,
             synth_owed: false,
             synth_maybe: false,
@@ -344,6 +347,8 @@ pub struct World {
     pub prop: String,
     pub signal: Option<calloop::LoopSignal>,
     /// adapters owned by callback closures that have not been dropped yet
+    /// an operation issued from inside a callback is being executed
+    pub cur_op_in_cb: bool,
     pub owned_fds: Vec<RawFd>,
     /// fds that outlived the adapter that borrowed them (kept open to the end of the history)
     pub kept_fds: Vec<OwnedFd>,
@@ -418,6 +423,7 @@ impl World {
             matrix: false,
             prop: String::new(),
             signal: None,
+            cur_op_in_cb: false,
             owned_fds: vec![],
             kept_fds: vec![],
             owned_cells: vec![],
@@ -458,6 +464,14 @@ impl World {
             // source's state mean an action was applied in part, or a discarded request was not discarded entirely
             if self.prop == "C09" && (clause == "C14.once" || clause == "C14.set_size" || clause == "C14.not_for_inactive") {
                 self.alarms.push(Alarm { clause: "C09.applied_once".into(), culprit: format!("lifecycle-hooks-out-of-step-{}", culprit), detail: detail.clone(), step });
+            }
+            // C08: an in-callback disable()/remove() of a timer leaves nothing armed behind, exactly as outside a dispatch
+            if clause == "C05.no_residue" && self.prop == "C08" && self.cov_inops != 0 {
+                self.alarms.push(Alarm { clause: "C08.effect_as_outside".into(), culprit: format!("timer-{}", culprit), detail: detail.clone(), step });
+            }
+            // C15: the post-action of a healthy source is applied although another source failed in the same dispatch
+            if clause == "C09.applied_once" && self.prop == "C15" && self.dispatch_failed {
+                self.alarms.push(Alarm { clause: "C15.nothing_lost".into(), culprit: format!("post-action-lost-in-failed-dispatch-{}", culprit), detail: detail.clone(), step });
             }
             if clause.starts_with("C09.") && self.cov_inops != 0 {
                 self.alarms.push(Alarm { clause: "C08.effect_as_outside".into(), culprit: format!("{}-{}", &clause[4..], culprit), detail, step });
